@@ -419,6 +419,10 @@ pub fn run() {
         let d = gen_long_sparse(r, 40, 120, pool, gl, 0.0);
         check_desc("long-sparse", i, r, &d);
     });
+    par_cases("pi-gadgets", n_rand, move |r, i| {
+        let d = gen_pi_gadgets(r);
+        check_desc("pi-gadgets", i, r, &d);
+    });
     // procedures in sequence on the same graph object
     par_cases("sequences", n_rand, move |r, i| {
         let d = match r.below(4) {
